@@ -70,7 +70,7 @@ pub fn sound_elf32_le_small() {
 /// Concrete per harness: class, nbucket NB, nbloom NL, number of hashed symbols NS, symoffset SO.
 /// Symbolic: names (0..2 bytes, full alphabet, assumed sorted by bucket as the format requires),
 /// bloom shift 0..31, byte order, which present symbol is queried, the absent name.
-pub fn gnu_complete<const NB: usize, const NL: usize, const NS: usize, const SO: usize>(class: Class) {
+pub fn gnu_complete<const NB: usize, const NL: usize, const NS: usize, const SO: usize>(class: Class, absent_query: bool) {
     let le: bool = kani::any();
     let e = if le { AnyEndian::Little } else { AnyEndian::Big };
     let shift: u32 = kani::any();
@@ -160,6 +160,7 @@ pub fn gnu_complete<const NB: usize, const NL: usize, const NS: usize, const SO:
     let t = GnuHashTable::new(e, class, tab);
     assert!(t.is_ok());
     let t = t.unwrap();
+    if !absent_query {
     let k: usize = kani::any();
     kani::assume(k < NS);
     let q = [names[k].c0, names[k].c1];
@@ -182,6 +183,8 @@ pub fn gnu_complete<const NB: usize, const NL: usize, const NS: usize, const SO:
             assert!(false);
         }
     }
+    return;
+    }
     let a = Slot::any();
     let mut absent = true;
     i = 0;
@@ -202,6 +205,11 @@ pub fn gnu_complete<const NB: usize, const NL: usize, const NS: usize, const SO:
 
 #[kani::proof]
 #[kani::unwind(8)]
-pub fn complete_elf32_nb1_nl1_n2() {
-    gnu_complete::<1, 1, 2, 1>(Class::ELF32);
+pub fn complete_elf32_nb1_nl1_n2_present() {
+    gnu_complete::<1, 1, 2, 1>(Class::ELF32, false);
+}
+#[kani::proof]
+#[kani::unwind(8)]
+pub fn complete_elf32_nb1_nl1_n2_absent() {
+    gnu_complete::<1, 1, 2, 1>(Class::ELF32, true);
 }
